@@ -97,6 +97,12 @@ S10 = '''## 10. Changes to the machinery (log)
   `ensures` to a closure while keeping its body verbatim (Verus checks the ensures against the body).
 * **Optional rules** (`{'optional': True}`) and the structural `is-some-and` / `letchain-nest` rules make units tolerant
   to harmless rewrites; a construct no rule covers still yields *undecided*.
+* **False alarm corrected (C10, formerly listed as open finding L4).** The dump comparison of `replay/c10_trace` reported
+  `Many([x])` where an analysis that never saw the file has `One(x)` (`LuaMemberIndex::remove`, member/mod.rs) as a leak. The two
+  are the same answer to every query (`get_member_ids`, `resolve_type` = the union of one type, `resolve_semantic_decl`; `is_one`
+  has no caller) and hold no reference to the removed file: the search demanded more than C10 states. The search now reads the two
+  as equal (`fn one_of_many`, restricted to `members_index`), and the entry was removed from known_findings.json — a false alarm is
+  not a finding.
 * **False-alarm probes with harmless edits** (run on a scratch worktree, never committed): renaming the locals of
   `LineIndex::get_offset` and reversing the four independent `remove` statements of `DiagnosticIndex::remove` gives *undecided*
   (a proof anchor quotes a renamed local) resp. OK, never a VIOLATION; the semantically equivalent rewrites `if end < start`
